@@ -1,5 +1,5 @@
 # replay of a bounded stand-in violation (C16): re-run native/c16_states.py
 import sys
-print('fock n=2 pure=True: wigner(1) on a 9 x 6 grid has shape (9, 6), the other representations return (6, 9)')
+print('n=3 pure=True: reduced_dm([0,1,2]) differs between the gaussian and the fock representation (max 0.424)')
 print('REPLAY-VIOLATION')
 sys.exit(1)
